@@ -25,7 +25,14 @@ W3 = {
     "deep.f90": "module deep_m\n  use par_m\n  implicit none\n  type :: t0\n    integer :: k0\n  end type t0\n  type, extends(t0) :: t1\n    integer :: k1\n  end type t1\nend module deep_m\n",
     "deeper.f90": "module deeper_m\n  use deep_m\n  implicit none\n  type, extends(t1) :: t2\n    integer :: k2\n  end type t2\ncontains\n  subroutine s(v)\n    type(t2) :: v\n    v%k0 = 1\n    v%k1 = 2\n    v%k2 = 3\n  end subroutine s\nend module deeper_m\n",
 }
-WORKSPACES = {"types": W1, "include+extends": W2, "submodule+chain": W3}
+# a user module that has the name of a bundled intrinsic module (a serial stub of omp_lib): the names of the
+# workspace's own units are unique, the intrinsic one is in the object tree before indexing starts
+W4 = {
+    "omp_lib.f90": "module omp_lib\n  implicit none\n  integer, parameter :: my_threads = 4\ncontains\n  integer function omp_get_thread_num()\n    omp_get_thread_num = 0\n  end function omp_get_thread_num\n  integer function stub_only(k)\n    integer, intent(in) :: k\n    stub_only = k\n  end function stub_only\nend module omp_lib\n",
+    "solver.f90": "module solver_m\n  use omp_lib\n  implicit none\ncontains\n  subroutine run(n)\n    integer, intent(out) :: n\n    n = my_threads + omp_get_thread_num() + stub_only(2)\n  end subroutine run\nend module solver_m\n",
+    "main.f90": "program main\n  use solver_m\n  use omp_lib, only: my_threads\n  implicit none\n  integer :: n\n  call run(n)\n  print *, n, my_threads\nend program main\n",
+}
+WORKSPACES = {"types": W1, "include+extends": W2, "submodule+chain": W3, "shadows-intrinsic": W4}
 
 
 def run_cfg(cfg, hashseed):
@@ -42,7 +49,7 @@ def main(tier, seed):
     rnd = random.Random(seed)
     ck.assumptions = [
         "real worker schedules cannot be forced: TLC covers every interleaving of the InitIndex.tla model (and refutes the named deviation linkWhileMerging); the implementation is sampled over the knobs that influence the schedule - worker count, enumeration order (os.listdir/os.walk permuted inside the child), PYTHONHASHSEED - and over every opening order of the one-at-a-time path",
-        "workspaces with unique top-level names and cross-file USE, EXTENDS (3 levels), INCLUDE of a workspace file, SUBMODULE with module procedures",
+        "workspaces with unique top-level names and cross-file USE, EXTENDS (3 levels), INCLUDE of a workspace file, SUBMODULE with module procedures, a user module named like a bundled intrinsic module",
     ]
     for cfg in ("InitIndex_MC.cfg", "InitIndex_MC2.cfg"):
         r = tlc.mc("InitIndex", cfg, required_actions=["Dispatch", "Finish", "Merge", "ResolveLinks", "OpenOne"], timeout=600)
